@@ -90,6 +90,17 @@ def _has_data(node):
     return node.data is not None or any(_has_data(c) for c in node.children)
 
 
+def _has_text_leaf(node):
+    d = node.data
+    if isinstance(d, bytes) and 1 <= len(d) <= 16 and not node.children and node.tag != "registration":
+        try:
+            if d.decode("ascii").isprintable():
+                return True
+        except Exception:
+            pass
+    return any(_has_text_leaf(c) for c in node.children)
+
+
 def _outgoing_shape(node):
     """message fixtures document the incoming shape; the shape an application sends has `to` instead of from/t/offline/notify"""
     if node.tag != "message" or "from" not in node.attributes:
@@ -103,6 +114,8 @@ def _outgoing_shape(node):
 def h_fixture(ctx, modname, clsname, variant, role):
     Ent, node = _load_fixture(modname, clsname)
     lv, data = None, "keep"
+    if variant == "textdata":
+        data = "text"
     if variant.startswith("list"):
         lv = int(variant[4:])
     drop = ()
@@ -112,7 +125,12 @@ def h_fixture(ctx, modname, clsname, variant, role):
         node = _outgoing_shape(node)
     keep = SC.DISCRIMINATORS + KEEP_EXTRA.get(Ent.__name__, ())
     sym = SC.symbolise(ctx, node, list_variant=lv, data=data, keep=keep, drop=drop)
-    ent = Ent.fromProtocolTreeNode(sym)
+    try:
+        ent = Ent.fromProtocolTreeNode(sym)
+    except (UnicodeDecodeError, ValueError) as e:
+        if variant != "textdata":
+            raise
+        return []            # arbitrary bytes that the class rejects as text / number: not a conversion at all
     out = ent.toProtocolTreeNode()
     obs = []
     if role == "in":
@@ -195,6 +213,8 @@ def cases(tier):
         for opt in OPTIONAL_ATTRS:
             if opt in node.attributes:
                 variants.append("without-" + opt)
+        if _has_text_leaf(node) and "in" in roles:
+            variants.append("textdata")
         for role in roles:
             for v in variants:
                 cs.append(dict(name="fixture[%s,%s,%s]" % (short, role, v), fn=h_fixture, args=(modname, name, v, role), timeout_s=120, max_paths=3000, keep_samples=3))
